@@ -44,6 +44,7 @@ def fnOfJson (j : Json) : Option Fn :=
     | "fst" => some .fst | "snd" => some .snd | "sumTup" => some .sumTup | "len" => some .len
     | "rep" => some (.rep n1) | "failIf" => some (.failIf n1 n2) | "isEven" => some .isEven
     | "gt" => some (.gt i1) | "truthy" => some .truthy | "failPred" => some (.failPred n1 n2)
+    | "bucketNone" => some (.bucketNone n1)
     | _ => none
   | _ => none
 
